@@ -424,10 +424,13 @@ impl<'a> OpenResponsesSsePipe<'a> {
                 Err(err) => {
                     let valid = err.valid_up_to();
                     if valid == 0 {
-                        if err.error_len().is_none() {
+                        let Some(invalid_len) = err.error_len() else {
                             break;
-                        }
-                        utf8_buf.remove(0);
+                        };
+                        // Replace the whole invalid sequence by one U+FFFD, exactly as the branch
+                        // below does when the sequence follows valid text.
+                        let drain_len = invalid_len.min(utf8_buf.len());
+                        utf8_buf.drain(..drain_len);
                         saw_done = self.push_sse_str("\u{FFFD}").await;
                         if saw_done {
                             utf8_buf.clear();
